@@ -372,3 +372,561 @@ Corollary concat_axis1_lengths (xs ys : list (list value)) :
   map (fun p : list value * list value => zlen (fst p ++ snd p)) (zip xs ys) =
   map (fun p : list value * list value => zlen (fst p) + zlen (snd p)) (zip xs ys).
 Proof. apply map_ext. intros [a b]. apply zlen_app. Qed.
+
+(* ====================================================================== C09 *)
+(* ak.is_none(x, axis=0): True exactly at the missing entries *)
+Theorem is_none_exact_lemma t vs :
+  is_union t = false ->
+  spec_is_none 0 t vs = Ok (VList (map (fun v => VBool (is_none v)) vs)).
+Proof.
+  intros Hu. unfold spec_is_none, resolve_axis_top. cbn [Z.leb Z.compare bind Z.eqb].
+  destruct t; try reflexivity. discriminate.
+Qed.
+
+(* ak.is_none(x, axis=1) on an array of lists: True exactly at the missing elements of every list *)
+Theorem is_none_exact_axis1_lemma sz te (ls : list (list value)) :
+  spec_is_none 1 (TList sz None te) (map VList ls) =
+  Ok (VList (map (fun l => VList (map (fun v => VBool (is_none v)) l)) ls)).
+Proof.
+  unfold spec_is_none, resolve_axis_top, spec_ax. cbn.
+  rewrite mapM_map. unfold is_none_f. rewrite mapM_pure. reflexivity.
+Qed.
+
+(* ak.mask(x, m, valid_when) with a flat boolean mask: None exactly where m differs from valid_when, the other
+   entries (missing ones included) unchanged *)
+Theorem mask_exact_lemma vw ta (xs : list value) (ms : list bool) :
+  has_union ta = false ->
+  length xs = length ms ->
+  spec_mask vw ta xs (TNum DBool) (map VBool ms) =
+  Ok (VList (map (fun p : value * bool => if Bool.eqb (snd p) vw then fst p else VNone) (zip xs ms))).
+Proof.
+  intros Hu Hlen. unfold spec_mask. rewrite Hu. cbn [orb has_union mask_leaf_ok negb].
+  unfold top_rows. cbn [fold_right map].
+  assert (Hz : zlen (map VBool ms) = zlen xs) by (unfold zlen; rewrite map_length, Hlen; reflexivity).
+  rewrite Hz.
+  replace (Z.max (zlen xs) (Z.max (zlen xs) 0)) with (zlen xs) by (pose proof (zlen_nonneg xs); lia).
+  cbn [mapM stretch]. rewrite Hz, Z.eqb_refl. cbn [bind].
+  rewrite rows_of2 by (rewrite map_length; exact Hlen).
+  rewrite mapM_map.
+  rewrite (mapM_Ok_map _ (fun p : value * value =>
+             match snd p with VBool b => if Bool.eqb b vw then fst p else VNone | _ => VNone end)).
+  2:{ intros [a m] Hin. cbn [fst snd mask_v].
+      assert (exists b, m = VBool b) as [b ->].
+      { clear -Hin. revert ms Hin. induction xs as [|x xs IH]; intros [|b ms] Hin; cbn in Hin; try contradiction.
+        destruct Hin as [E|Hin]; [injection E as _ <-; eauto | eapply IH; exact Hin]. }
+      reflexivity. }
+  cbn [rmap]. f_equal. f_equal.
+  clear. revert ms. induction xs as [|x xs IH]; intros [|b ms]; try reflexivity.
+  cbn. rewrite IH. reflexivity.
+Qed.
+
+(* ak.fill_none(x, v0, axis=0) on a flat option array: exactly the None entries are replaced *)
+Theorem fill_none_exact_lemma dt v0 vs :
+  is_bool_dt dt = false ->
+  spec_fill_none (FAxis 0) v0 (TOpt (TNum dt)) vs =
+  Ok (VList (map (fun v => if is_none v then v0 else v) vs)).
+Proof.
+  intros Hb. unfold spec_fill_none.
+  replace (mixes_bool_num [TOpt (TNum dt); TNum DInt64]) with false
+    by (destruct dt; try reflexivity; discriminate).
+  unfold resolve_axis_top. cbn [Z.leb Z.compare bind].
+  rewrite (mapM_Ok_map _ (fun v => if is_none v then v0 else v)); [reflexivity|].
+  intros v _. destruct v; reflexivity.
+Qed.
+
+(* at any depth: entries that are not None at the addressed level are kept; here for lists of options, axis=1 *)
+Theorem fill_none_exact_axis1_lemma sz dt v0 (ls : list (list value)) :
+  is_bool_dt dt = false ->
+  spec_fill_none (FAxis 1) v0 (TList sz None (TOpt (TNum dt))) (map VList ls) =
+  Ok (VList (map (fun l => VList (map (fun v => if is_none v then v0 else v) l)) ls)).
+Proof.
+  intros Hb. unfold spec_fill_none.
+  replace (mixes_bool_num [TList sz None (TOpt (TNum dt)); TNum DInt64]) with false
+    by (destruct dt; try reflexivity; discriminate).
+  unfold resolve_axis_top. cbn [Z.leb Z.compare bind].
+  rewrite mapM_map.
+  rewrite (mapM_Ok_map _ (fun l => VList (map (fun v => if is_none v then v0 else v) l))); [reflexivity|].
+  intros l _. cbn.
+  rewrite (mapM_Ok_map _ (fun v => if is_none v then v0 else v)); [reflexivity|].
+  intros v _. destruct v; reflexivity.
+Qed.
+
+(* ak.firsts(ak.singletons(x)) = x for an option-type array *)
+Theorem firsts_singletons_lemma t' vs :
+  spec_firsts_singletons (TOpt t') vs = Ok (VList vs).
+Proof.
+  unfold spec_firsts_singletons. cbn [singletons_v].
+  rewrite mapM_pure. cbn [bind singletons_ty].
+  unfold spec_firsts, resolve_axis_top, spec_ax. cbn.
+  rewrite mapM_map.
+  rewrite (mapM_Ok_map _ (fun v => v)); [rewrite map_id; reflexivity|].
+  intros v _. destruct v; reflexivity.
+Qed.
+
+(* ====================================================================== C10 *)
+Lemma mapM_iota_get {B} (F : Z -> res B) (L : list B) :
+  (forall i, 0 <= i < zlen L -> F i = get L i) -> mapM F (iota (zlen L)) = Ok L.
+Proof.
+  intros H.
+  rewrite (mapM_ext_in F (get L)) by (intros i Hi; apply H, iota_In', Hi).
+  assert (E : iota (zlen L) = range 0 (zlen L)) by (unfold iota, range; rewrite Z.sub_0_r; reflexivity).
+  rewrite E, gather_range by (pose proof (zlen_nonneg L); lia).
+  rewrite slice_ok by (pose proof (zlen_nonneg L); lia).
+  unfold drop. cbn [Z.to_nat skipn]. rewrite Z.sub_0_r, take_all by lia. reflexivity.
+Qed.
+
+Lemma get_In {A} (l : list A) i x : get l i = Ok x -> In x l.
+Proof.
+  unfold get. destruct (i <? 0); [discriminate|].
+  destruct (nth_error l (Z.to_nat i)) eqn:E; [|discriminate].
+  intros H. injection H as <-. eapply nth_error_In, E.
+Qed.
+
+Definition all_len (n : nat) (cols : list (list value)) : Prop := Forall (fun c => length c = n) cols.
+
+Lemma transpose_n_rows_len n : forall cols, Forall (fun row => length row = length cols) (transpose_n n cols).
+Proof.
+  induction n as [|k IH]; intros cols; cbn [transpose_n]; constructor.
+  - apply map_length.
+  - specialize (IH (map (@tl value) cols)). rewrite map_length in IH. exact IH.
+Qed.
+
+(* column i of the rows of equally long columns is column i *)
+Lemma transpose_n_col n : forall cols i c,
+  get cols i = Ok c -> all_len n cols ->
+  mapM (fun row => get row i) (transpose_n n cols) = Ok c.
+Proof.
+  induction n as [|k IH]; intros cols i c Hg Hall.
+  - cbn. assert (length c = 0%nat) as Hc.
+    { unfold all_len in Hall. rewrite Forall_forall in Hall. apply Hall. eapply get_In. exact Hg. }
+    destruct c; [reflexivity | discriminate].
+  - cbn [transpose_n mapM].
+    assert (length c = S k) as Hc.
+    { unfold all_len in Hall. rewrite Forall_forall in Hall. apply Hall. eapply get_In. exact Hg. }
+    destruct c as [|x c']; [discriminate|].
+    rewrite get_map, Hg. cbn [rmap hd bind].
+    rewrite (IH (map (@tl value) cols) i c').
+    + reflexivity.
+    + rewrite get_map, Hg. reflexivity.
+    + unfold all_len in *. rewrite Forall_forall in *. intros c0 Hin.
+      apply in_map_iff in Hin. destruct Hin as (c1 & <- & Hin1). specialize (Hall c1 Hin1).
+      destruct c1; cbn in *; lia.
+Qed.
+
+Lemma max_len_all n cols :
+  cols <> [] -> all_len n cols ->
+  fold_right (fun (c : list value) m => Z.max (zlen c) m) 0 cols = Z.of_nat n.
+Proof.
+  intros Hne Hall. induction cols as [|c cols IH]; [contradiction|].
+  apply Forall_cons_iff in Hall. destruct Hall as [Hc Hrest]. cbn [fold_right]. unfold zlen at 1. rewrite Hc.
+  destruct cols as [|c2 cols]; [cbn; lia|].
+  rewrite IH; [lia | discriminate | exact Hrest].
+Qed.
+
+Lemma top_rows_equal n cols :
+  cols <> [] -> all_len n cols -> top_rows cols = Ok (transpose_n n cols).
+Proof.
+  intros Hne Hall. unfold top_rows. rewrite (max_len_all n cols Hne Hall).
+  rewrite (mapM_Ok_map _ (fun c => c)).
+  - cbn [bind]. rewrite map_id. unfold rows_of. destruct cols as [|c cols]; [contradiction|].
+    apply Forall_cons_iff in Hall. destruct Hall as [Hc _]. rewrite Hc. reflexivity.
+  - intros c Hin. unfold all_len in Hall. rewrite Forall_forall in Hall. specialize (Hall c Hin).
+    cbn [stretch]. unfold zlen. rewrite Hall, Z.eqb_refl. reflexivity.
+Qed.
+
+Lemma zip_fst_snd {A B} (l : list A) (m : list B) :
+  length l = length m -> map fst (zip l m) = l /\ map snd (zip l m) = m.
+Proof.
+  revert m. induction l as [|x l IH]; intros [|y m] H; try discriminate; [split; reflexivity|].
+  cbn. destruct (IH m) as [E1 E2]; [cbn in H; lia|]. rewrite E1, E2. split; reflexivity.
+Qed.
+
+Lemma get_zip_snd {A B} (l : list A) (m : list B) i :
+  length l = length m ->
+  (do kv <- get (zip l m) i; Ok (snd kv)) = get m i.
+Proof.
+  intros H. destruct (zip_fst_snd l m H) as [_ E2].
+  rewrite <- E2 at 2. rewrite get_map. destruct (get (zip l m) i); reflexivity.
+Qed.
+
+(* one row of the zipped array: a tuple or a record of the corresponding elements *)
+Definition mkrow (fields : option (list name)) (row : list value) : value :=
+  match fields with None => VTup row | Some ks => VRec (zip ks row) end.
+
+Lemma pick_field_mkrow fields i f row :
+  match fields with None => True | Some ks => length ks = length row end ->
+  pick_field i (S f) (mkrow fields row) = get row i.
+Proof.
+  intros H. destruct fields as [ks|]; cbn; [apply get_zip_snd; exact H | reflexivity].
+Qed.
+
+(* C10 (fragment): unzip(zip(fields)) returns the fields, when zip builds its records at the outermost level
+   (depth_limit = 1); the fields may have any structure.  What is NOT proved here: zipping below the first level
+   of equally structured nested lists. *)
+Theorem unzip_zip_partial_lemma n (fields : option (list name)) (arrs : list arr) :
+  arrs <> [] ->
+  all_len n (map snd arrs) ->
+  existsb is_union (map fst arrs) = false ->
+  fields_ok (zlen arrs) fields = true ->
+  spec_unzip_zip (Some 1) fields arrs = Ok (VTup (map (fun a : arr => VList (snd a)) arrs)).
+Proof.
+  intros Hne Hall Hu Hf.
+  assert (Hk : match fields with None => True | Some ks => length ks = length arrs end).
+  { destruct fields as [ks|]; [|exact I]. cbn in Hf. apply Z.eqb_eq in Hf. apply zlen_eq_length in Hf. exact Hf. }
+  assert (Hcols : map snd arrs <> []) by (destruct arrs; [contradiction | discriminate]).
+  (* the zipped rows *)
+  assert (Hzip : spec_zip (Some 1) fields arrs = Ok (VList (map (mkrow fields) (transpose_n n (map snd arrs))))).
+  { unfold spec_zip. cbn [Z.leb Z.compare bind]. rewrite Hf. cbn [negb].
+    assert (Hm : forall (X : res value), match arrs with [] => unspecified | _ :: _ => X end = X)
+      by (intros X; destruct arrs; [contradiction | reflexivity]).
+    rewrite Hm. clear Hm.
+    unfold bc_fuel. cbn [bct]. unfold zip_stop at 1. rewrite Hu. cbn [Z.eqb Pos.eqb bind].
+    rewrite (top_rows_equal n _ Hcols Hall). cbn [bind].
+    rewrite (mapM_Ok_map _ (mkrow fields)); [reflexivity|].
+    intros row Hin.
+    assert (Hlen : length (map fst arrs) = length row).
+    { pose proof (transpose_n_rows_len n (map snd arrs)) as Hr. rewrite Forall_forall in Hr.
+      rewrite (Hr row Hin). rewrite !map_length. reflexivity. }
+    destruct (zip_fst_snd (map fst arrs) row Hlen) as [E1 E2].
+    cbn [bc]. rewrite E1. unfold zip_stop. rewrite Hu. cbn [Z.eqb Pos.eqb bind]. rewrite E2.
+    unfold mk_tuple, mkrow. destruct fields as [ks|]; [|reflexivity].
+    replace (length ks) with (length row) by (rewrite Hk; rewrite map_length in Hlen; symmetry; exact Hlen).
+    rewrite Nat.eqb_refl. reflexivity. }
+  unfold spec_unzip_zip. rewrite Hzip. cbn [bind].
+  remember (match fields with Some ks => ks | None => map digit_name (iota (zlen arrs)) end) as ks eqn:Eks.
+  assert (Hks : zlen ks = zlen arrs).
+  { subst ks. destruct fields as [ks0|].
+    - unfold zlen. rewrite Hk. reflexivity.
+    - rewrite zlen_map, zlen_iota by apply zlen_nonneg. reflexivity. }
+  assert (Hm : forall X : res value, match ks with [] => unspecified | _ :: _ => X end = X).
+  { intros X. destruct ks; [exfalso|reflexivity]. destruct arrs; [contradiction|].
+    rewrite zlen_cons in Hks. cbn in Hks. pose proof (zlen_nonneg arrs). lia. }
+  rewrite Hm. clear Hm Eks.
+  set (L := map (fun a : arr => VList (snd a)) arrs).
+  assert (HL : zlen L = zlen ks) by (subst L; rewrite zlen_map; symmetry; exact Hks).
+  rewrite <- HL. rewrite mapM_iota_get; [reflexivity|].
+  intros i Hi. unfold bc_fuel. rewrite mapM_map.
+  rewrite (mapM_ext_in _ (fun row => get row i)).
+  2:{ intros row Hin. apply pick_field_mkrow. destruct fields as [ks0|]; [|exact I].
+      pose proof (transpose_n_rows_len n (map snd arrs)) as Hr. rewrite Forall_forall in Hr.
+      rewrite (Hr row Hin), map_length. exact Hk. }
+  subst L. rewrite get_map. rewrite zlen_map in Hi.
+  unfold arr in *. destruct (get_ok arrs i Hi) as [a Ha]. rewrite Ha. cbn [rmap].
+  rewrite (transpose_n_col n (map snd arrs) i (snd a)); [reflexivity | | exact Hall].
+  rewrite get_map, Ha. reflexivity.
+Qed.
+
+(* ---------------------------------------------------------------- with_field on an array of records *)
+Lemma name_eqb_eq (a b : name) : name_eqb a b = true <-> a = b.
+Proof.
+  unfold name_eqb. revert b. induction a as [|x a IH]; intros [|y b]; cbn; split; intros H; try discriminate; auto.
+  - apply andb_true_iff in H. destruct H as [H1 H2]. apply Z.eqb_eq in H1. apply IH in H2. subst. reflexivity.
+  - injection H as -> ->. rewrite Z.eqb_refl. apply IH. reflexivity.
+Qed.
+Lemma name_eqb_neq (a b : name) : name_eqb a b = false <-> a <> b.
+Proof.
+  split; intros H.
+  - intros E. apply name_eqb_eq in E. congruence.
+  - destruct (name_eqb a b) eqn:E; [apply name_eqb_eq in E; contradiction | reflexivity].
+Qed.
+
+(* the first field called [k] *)
+Fixpoint lookup (k : name) (fs : list (name * value)) : option value :=
+  match fs with
+  | [] => None
+  | (k', v) :: r => if name_eqb k k' then Some v else lookup k r
+  end.
+Fixpoint remove_key (k : name) (fs : list (name * value)) : list (name * value) :=
+  match fs with
+  | [] => []
+  | (k', v) :: r => if name_eqb k k' then r else (k', v) :: remove_key k r
+  end.
+
+Lemma index_of_lookup k : forall fs s v,
+  lookup k fs = Some v ->
+  exists i, 0 <= i /\ index_of k (map fst fs) s = Ok (s + i) /\ exists k', get fs i = Ok (k', v).
+Proof.
+  induction fs as [|[k' x] r IH]; intros s v H; [discriminate|].
+  cbn [lookup] in H. cbn [map fst index_of].
+  destruct (name_eqb k k') eqn:E.
+  - injection H as <-. exists 0. split; [lia|]. split; [f_equal; lia|]. exists k'. apply get_cons_0.
+  - destruct (IH (s + 1) v H) as (i & Hi & Hidx & k'' & Hg).
+    exists (i + 1). split; [lia|]. split; [rewrite Hidx; f_equal; lia|].
+    exists k''. rewrite get_cons_S by lia. exact Hg.
+Qed.
+
+(* projecting a field that is present, by name *)
+Lemma proj_lookup k ts fs v :
+  lookup k fs = Some v ->
+  proj_v k (TRec (Some (map fst fs)) ts) (VRec fs) = Ok v.
+Proof.
+  intros H. destruct (index_of_lookup k fs 0 v H) as (i & Hi & Hidx & k' & Hg).
+  cbn [proj_v]. unfold field_pos. rewrite Hidx. cbn [bind]. rewrite Z.add_0_l, Hg. reflexivity.
+Qed.
+
+Lemma lookup_app k fs gs :
+  lookup k (fs ++ gs) = match lookup k fs with Some v => Some v | None => lookup k gs end.
+Proof.
+  induction fs as [|[k' x] r IH]; [reflexivity|]. cbn. destruct (name_eqb k k'); [reflexivity | exact IH].
+Qed.
+
+Lemma lookup_remove_same k fs : NoDup (map fst fs) -> lookup k (remove_key k fs) = None.
+Proof.
+  induction fs as [|[k' x] r IH]; intros Hnd; [reflexivity|].
+  cbn [remove_key]. cbn [map fst] in Hnd. apply NoDup_cons_iff in Hnd. destruct Hnd as [Hnin Hnd].
+  destruct (name_eqb k k') eqn:E.
+  - apply name_eqb_eq in E. subst k'. clear -Hnin. induction r as [|[k2 y] r IHr]; [reflexivity|].
+    cbn. cbn in Hnin. destruct (name_eqb k k2) eqn:E2.
+    + apply name_eqb_eq in E2. subst. exfalso. apply Hnin. left. reflexivity.
+    + apply IHr. intros Hin. apply Hnin. right. exact Hin.
+  - cbn [lookup]. rewrite E. apply IH, Hnd.
+Qed.
+
+Lemma lookup_remove_other k k' fs : k' <> k -> lookup k' (remove_key k fs) = lookup k' fs.
+Proof.
+  intros Hne. induction fs as [|[k2 x] r IH]; [reflexivity|].
+  cbn [remove_key lookup]. destruct (name_eqb k k2) eqn:E.
+  - apply name_eqb_eq in E. subst k2. apply name_eqb_neq in Hne. rewrite Hne. reflexivity.
+  - cbn [lookup]. rewrite IH. reflexivity.
+Qed.
+
+Lemma Proofs_Field_index_range k : forall ks s i, index_of k ks s = Ok i -> s <= i < s + zlen ks.
+Proof.
+  induction ks as [|x r IH]; intros s i H; cbn [index_of] in H; [discriminate|].
+  rewrite zlen_cons. pose proof (zlen_nonneg r). destruct (name_eqb k x).
+  - injection H as <-. lia.
+  - apply IH in H. lia.
+Qed.
+
+(* remove_at on the keys and on the values = remove_key on the pairs *)
+Lemma remove_at_zip k : forall (fs : list (name * value)) s,
+  match index_of k (map fst fs) s with
+  | Ok i => remove_at (i - s) (map fst fs) = map fst (remove_key k fs) /\
+            remove_at (i - s) (map snd fs) = map snd (remove_key k fs)
+  | Err _ => remove_key k fs = fs
+  end.
+Proof.
+  induction fs as [|[k' x] r IH]; intros s; [reflexivity|].
+  cbn [map fst snd index_of remove_key]. destruct (name_eqb k k') eqn:E.
+  - rewrite Z.sub_diag. cbn. split; reflexivity.
+  - specialize (IH (s + 1)). destruct (index_of k (map fst r) (s + 1)) as [i|e] eqn:Ei.
+    + pose proof (Proofs_Field_index_range k (map fst r) (s + 1) i Ei) as Hr.
+      destruct IH as [I1 I2]. cbn [remove_at].
+      replace (i - s =? 0) with false by lia.
+      replace (i - s - 1) with (i - (s + 1)) by lia.
+      cbn [map fst snd]. rewrite I1, I2. split; reflexivity.
+    + rewrite IH. reflexivity.
+Qed.
+
+Lemma zip_fst_snd_app (l : list (name * value)) k w :
+  zip (map fst l ++ [k]) (map snd l ++ [w]) = l ++ [(k, w)].
+Proof. induction l as [|[a b] l IH]; [reflexivity|]. cbn. rewrite IH. reflexivity. Qed.
+
+(* what with_field does to ONE record: the field [k] is dropped where it was and appended with the new value *)
+Lemma set_field_named k fs w :
+  set_field (Some k) (Some (map fst fs)) (zlen fs) (VRec fs) w = Ok (VRec (remove_key k fs ++ [(k, w)])).
+Proof.
+  unfold set_field. rewrite Z.eqb_refl. cbn [bind]. unfold find_key.
+  pose proof (remove_at_zip k fs 0) as H.
+  destruct (index_of k (map fst fs) 0) as [i|e] eqn:Ei.
+  - rewrite Z.sub_0_r in H. destruct H as [H1 H2]. rewrite H1, H2, zip_fst_snd_app. reflexivity.
+  - rewrite H. rewrite zip_fst_snd_app. reflexivity.
+Qed.
+
+Lemma set_field_ty_keys k fs ts tw :
+  exists ts', set_field_ty (Some k) (Some (map fst fs)) ts tw =
+              TRec (Some (map fst (remove_key k fs ++ [(k, VNone)]))) ts'.
+Proof.
+  unfold set_field_ty, find_key.
+  pose proof (remove_at_zip k fs 0) as H.
+  destruct (index_of k (map fst fs) 0) as [i|e] eqn:Ei.
+  - rewrite Z.sub_0_r in H. destruct H as [H1 _]. rewrite H1.
+    eexists. rewrite map_app. reflexivity.
+  - rewrite H. eexists. rewrite map_app. reflexivity.
+Qed.
+
+(* records of one record type: every element is a record with the keys [ks] *)
+Definition records_of (ks : list name) (rows : list (list (name * value))) : Prop :=
+  Forall (fun fs => map fst fs = ks) rows.
+
+(* ak.with_field(base, what, k) on an array of records, element by element *)
+Lemma with_field1_records k ks ts tw (rows : list (list (name * value))) (ws : list value) :
+  existsb has_union ts = false -> has_union tw = false ->
+  records_of ks rows -> zlen ts = zlen ks -> length rows = length ws ->
+  with_field1 (Some k) (TRec (Some ks) ts) (map VRec rows) (WArr tw ws) =
+  Ok (set_field_ty (Some k) (Some ks) ts tw,
+      map (fun p : list (name * value) * value => VRec (remove_key k (fst p) ++ [(k, snd p)])) (zip rows ws)).
+Proof.
+  intros Hu Hw Hrec Hts Hlen.
+  unfold with_field1. cbn [has_union has_record_node negb]. rewrite Hu, Hw.
+  rewrite (top_rows_equal (length rows) [map VRec rows; ws]).
+  2: discriminate.
+  2:{ repeat constructor; [apply map_length | symmetry; exact Hlen]. }
+  cbn [bind]. change (transpose_n (length rows) [map VRec rows; ws]) with (transpose_n (length rows) [map VRec rows; ws]).
+  replace (length rows) with (length (map VRec rows)) by apply map_length.
+  rewrite transpose2 by (rewrite map_length; exact Hlen).
+  rewrite mapM_map.
+  assert (Hz : zip (map VRec rows) ws = map (fun p : list (name * value) * value => (VRec (fst p), snd p)) (zip rows ws)).
+  { clear. revert ws. induction rows as [|r rows IH]; intros [|w ws]; try reflexivity. cbn. rewrite IH. reflexivity. }
+  rewrite Hz, mapM_map.
+  rewrite (mapM_Ok_map _ (fun p : list (name * value) * value => VRec (remove_key k (fst p) ++ [(k, snd p)]))).
+  - reflexivity.
+  - intros [fs w] Hin. cbn [fst snd wf_v].
+    assert (Hfs : map fst fs = ks).
+    { unfold records_of in Hrec. rewrite Forall_forall in Hrec. apply Hrec.
+      clear -Hin. revert ws Hin. induction rows as [|r rows IH]; intros [|w0 ws] Hin; cbn in Hin; try contradiction.
+      destruct Hin as [E|Hin]; [injection E as <- _; left; reflexivity | right; eapply IH, Hin]. }
+    rewrite <- Hfs.
+    replace (zlen ts) with (zlen fs) by (rewrite Hts, <- Hfs, zlen_map; reflexivity).
+    apply set_field_named.
+Qed.
+
+Fixpoint remove_name (k : name) (ks : list name) : list name :=
+  match ks with
+  | [] => []
+  | k' :: r => if name_eqb k k' then r else k' :: remove_name k r
+  end.
+Lemma map_fst_remove_key k fs : map fst (remove_key k fs) = remove_name k (map fst fs).
+Proof.
+  induction fs as [|[k' x] r IH]; [reflexivity|]. cbn. destruct (name_eqb k k'); [reflexivity|].
+  cbn. rewrite IH. reflexivity.
+Qed.
+Lemma zlen_remove_at {A} (l : list A) : forall i, 0 <= i < zlen l -> zlen (remove_at i l) = zlen l - 1.
+Proof.
+  induction l as [|x l IH]; intros i Hi; [cbn in Hi; lia|].
+  cbn [remove_at]. destruct (i =? 0) eqn:E; [rewrite zlen_cons; lia|].
+  rewrite !zlen_cons in *. rewrite IH by lia. lia.
+Qed.
+Lemma remove_at_names k : forall ks s,
+  match index_of k ks s with
+  | Ok i => remove_at (i - s) ks = remove_name k ks
+  | Err _ => remove_name k ks = ks
+  end.
+Proof.
+  induction ks as [|k' r IH]; intros s; [reflexivity|].
+  cbn [index_of remove_name]. destruct (name_eqb k k') eqn:E.
+  - rewrite Z.sub_diag. reflexivity.
+  - specialize (IH (s + 1)). destruct (index_of k r (s + 1)) as [i|e] eqn:Ei.
+    + pose proof (Proofs_Field_index_range k r (s + 1) i Ei) as Hr.
+      cbn [remove_at]. replace (i - s =? 0) with false by lia.
+      replace (i - s - 1) with (i - (s + 1)) by lia. rewrite IH. reflexivity.
+    + rewrite IH. reflexivity.
+Qed.
+
+(* the record type after with_field: the other keys in order, the new key last; one type per key *)
+Lemma set_field_ty_shape k ks ts tw :
+  zlen ts = zlen ks ->
+  exists ts', set_field_ty (Some k) (Some ks) ts tw = TRec (Some (remove_name k ks ++ [k])) (ts' ++ [tw])
+              /\ zlen ts' = zlen (remove_name k ks).
+Proof.
+  intros Hlen. unfold set_field_ty, find_key.
+  pose proof (remove_at_names k ks 0) as H.
+  destruct (index_of k ks 0) as [i|e] eqn:Ei.
+  - rewrite Z.sub_0_r in H. pose proof (Proofs_Field_index_range k ks 0 i Ei) as Hr.
+    exists (remove_at i ts). rewrite H. split; [reflexivity|].
+    rewrite <- H. rewrite !zlen_remove_at by lia. lia.
+  - exists ts. rewrite H. split; [reflexivity | exact Hlen].
+Qed.
+
+Lemma index_of_last k : forall ks s, ~ In k ks -> index_of k (ks ++ [k]) s = Ok (s + zlen ks).
+Proof.
+  induction ks as [|k' r IH]; intros s Hnin.
+  - cbn. rewrite (proj2 (name_eqb_eq k k) eq_refl). f_equal. rewrite zlen_nil. lia.
+  - cbn [app index_of]. replace (name_eqb k k') with false
+      by (symmetry; apply name_eqb_neq; intros ->; apply Hnin; left; reflexivity).
+    rewrite IH by (intros Hin; apply Hnin; right; exact Hin). f_equal. rewrite zlen_cons. lia.
+Qed.
+
+Lemma remove_name_notin k ks : NoDup ks -> ~ In k (remove_name k ks).
+Proof.
+  induction ks as [|k' r IH]; intros Hnd; [intros []|].
+  apply NoDup_cons_iff in Hnd. destruct Hnd as [Hnin Hnd]. cbn.
+  destruct (name_eqb k k') eqn:E.
+  - apply name_eqb_eq in E. subst. exact Hnin.
+  - intros [->|Hin]; [apply name_eqb_neq in E; contradiction | apply (IH Hnd Hin)].
+Qed.
+
+(* C10: after with_field(base, what, k), reading k gives what *)
+Theorem with_field_get_same_lemma k ks ts tw (rows : list (list (name * value))) (ws : list value) :
+  existsb has_union ts = false -> has_union tw = false ->
+  records_of ks rows -> NoDup ks -> zlen ts = zlen ks -> length rows = length ws ->
+  spec_get_with_field [k] (TRec (Some ks) ts) (map VRec rows) (WArr tw ws) = Ok (VList ws).
+Proof.
+  intros Hu Hw Hrec Hnd Hts Hlen.
+  unfold spec_get_with_field. cbn [with_field_path].
+  rewrite (with_field1_records k ks ts tw rows ws Hu Hw Hrec Hts Hlen). cbn [bind fst snd proj_path].
+  destruct (set_field_ty_shape k ks ts tw Hts) as (ts' & Ety & Hts').
+  rewrite Ety.
+  assert (Hpos : field_pos (Some (remove_name k ks ++ [k])) (zlen (ts' ++ [tw])) k = Ok (zlen ts')).
+  { unfold field_pos. rewrite index_of_last by (apply remove_name_notin, Hnd). rewrite Hts'. reflexivity. }
+  cbn [proj_ty]. rewrite Hpos. cbn [bind].
+  rewrite get_app2 by lia. rewrite Z.sub_diag, get_cons_0. cbn [bind].
+  rewrite mapM_map.
+  rewrite (mapM_Ok_map _ (fun p : list (name * value) * value => snd p)).
+  - cbn [rmap]. f_equal. f_equal. destruct (zip_fst_snd rows ws Hlen) as [_ E]. exact E.
+  - intros [fs w] Hin. cbn [fst snd].
+    assert (Hfs : map fst fs = ks).
+    { unfold records_of in Hrec. rewrite Forall_forall in Hrec. apply Hrec.
+      clear -Hin. revert ws Hin. induction rows as [|r rows IH]; intros [|w0 ws] Hin; cbn in Hin; try contradiction.
+      destruct Hin as [E|Hin]; [injection E as <- _; left; reflexivity | right; eapply IH, Hin]. }
+    assert (Ek : remove_name k ks ++ [k] = map fst (remove_key k fs ++ [(k, w)])).
+    { rewrite map_app, map_fst_remove_key, Hfs. reflexivity. }
+    rewrite Ek. apply proj_lookup.
+    rewrite lookup_app, lookup_remove_same by (rewrite Hfs; exact Hnd).
+    cbn. rewrite (proj2 (name_eqb_eq k k) eq_refl). reflexivity.
+Qed.
+
+(* ... every other field reads as before ... *)
+Theorem with_field_get_other_lemma k k' ks ts tw (rows : list (list (name * value))) (ws : list value) out t' :
+  existsb has_union ts = false -> has_union tw = false ->
+  records_of ks rows -> zlen ts = zlen ks -> length rows = length ws ->
+  k' <> k -> In k' ks ->
+  with_field_path [k] (TRec (Some ks) ts) (map VRec rows) (WArr tw ws) = Ok (t', out) ->
+  mapM (proj_v k' t') out = mapM (proj_v k' (TRec (Some ks) ts)) (map VRec rows).
+Proof.
+  intros Hu Hw Hrec Hts Hlen Hne Hin H.
+  cbn [with_field_path] in H.
+  rewrite (with_field1_records k ks ts tw rows ws Hu Hw Hrec Hts Hlen) in H. injection H as <- <-.
+  destruct (set_field_ty_shape k ks ts tw Hts) as (ts' & Ety & Hts'). rewrite Ety.
+  rewrite !mapM_map.
+  assert (Hrows : map fst (zip rows ws) = rows) by (apply zip_fst_snd, Hlen).
+  rewrite <- Hrows at 2. rewrite mapM_map.
+  apply mapM_ext_in. intros [fs w] Hinp. cbn [fst snd].
+  assert (Hfs : map fst fs = ks).
+  { unfold records_of in Hrec. rewrite Forall_forall in Hrec. apply Hrec.
+    clear -Hinp. revert ws Hinp. induction rows as [|r rows IH]; intros [|w0 ws] Hinp; cbn in Hinp; try contradiction.
+    destruct Hinp as [E|Hinp]; [injection E as <- _; left; reflexivity | right; eapply IH, Hinp]. }
+  (* the field k' exists in fs *)
+  assert (exists v, lookup k' fs = Some v) as [v Hv].
+  { rewrite <- Hfs in Hin. clear -Hin. induction fs as [|[k2 x] r IH]; [destruct Hin|].
+    cbn. destruct (name_eqb k' k2) eqn:E; [eauto|]. apply IH. destruct Hin as [E2|Hin]; [|exact Hin].
+    cbn in E2. subst k2. rewrite (proj2 (name_eqb_eq k' k') eq_refl) in E. discriminate. }
+  assert (Ek : remove_name k ks ++ [k] = map fst (remove_key k fs ++ [(k, w)])).
+  { rewrite map_app, map_fst_remove_key, Hfs. reflexivity. }
+  rewrite Ek, <- Hfs.
+  rewrite (proj_lookup k' _ (remove_key k fs ++ [(k, w)]) v).
+  - symmetry. apply proj_lookup. exact Hv.
+  - rewrite lookup_app, lookup_remove_other by exact Hne. rewrite Hv. reflexivity.
+Qed.
+
+(* ... and the number of records and their keys (the others in order, then the new one) are as stated *)
+Theorem with_field_preserves_shape_lemma k ks ts tw (rows : list (list (name * value))) (ws : list value) out t' :
+  existsb has_union ts = false -> has_union tw = false ->
+  records_of ks rows -> zlen ts = zlen ks -> length rows = length ws ->
+  with_field_path [k] (TRec (Some ks) ts) (map VRec rows) (WArr tw ws) = Ok (t', out) ->
+  length out = length rows /\
+  Forall (fun v => exists fs, v = VRec fs /\ map fst fs = remove_name k ks ++ [k]) out.
+Proof.
+  intros Hu Hw Hrec Hts Hlen H.
+  cbn [with_field_path] in H.
+  rewrite (with_field1_records k ks ts tw rows ws Hu Hw Hrec Hts Hlen) in H. injection H as _ <-.
+  split.
+  - rewrite map_length, zip_length, <- Hlen. apply Nat.min_id.
+  - apply Forall_forall. intros v Hin. apply in_map_iff in Hin. destruct Hin as ([fs w] & <- & Hinp).
+    cbn [fst snd]. eexists. split; [reflexivity|].
+    assert (Hfs : map fst fs = ks).
+    { unfold records_of in Hrec. rewrite Forall_forall in Hrec. apply Hrec.
+      clear -Hinp. revert ws Hinp. induction rows as [|r rows IH]; intros [|w0 ws] Hinp; cbn in Hinp; try contradiction.
+      destruct Hinp as [E|Hinp]; [injection E as <- _; left; reflexivity | right; eapply IH, Hinp]. }
+    rewrite map_app, map_fst_remove_key, Hfs. reflexivity.
+Qed.
